@@ -93,7 +93,7 @@ func VH_c14_roundtrip() {
 	}
 	segs := vParam("segs")
 	for i := 0; i < segs; i++ {
-		params = append(params, c14seg("s", false, 3, false))
+		params = append(params, c14seg("s", false, vParam("maxn"), false))
 	}
 	orig := make([]bgp.AsPathParamInterface, len(params))
 	any4 := false
@@ -163,7 +163,7 @@ func VH_c14_pairs() {
 	for i := 0; i < na; i++ {
 		t := vU8("a_t")
 		vAssume(t >= 1 && t <= 4)
-		n := vInt("a_n", 1, 3)
+		n := vInt("a_n", 1, vParam("maxn"))
 		as := []uint16{vU16("a_as"), vU16("a_as"), vU16("a_as")}
 		ap = append(ap, bgp.NewAsPathParam(t, as[:n]))
 	}
@@ -172,7 +172,7 @@ func VH_c14_pairs() {
 	for i := 0; i < n4; i++ {
 		t := vU8("b_t")
 		vAssume(t >= 1 && t <= 4)
-		n := vInt("b_n", 1, 3)
+		n := vInt("b_n", 1, vParam("maxn"))
 		as := []uint32{vU32("b_as"), vU32("b_as"), vU32("b_as")}
 		a4 = append(a4, bgp.NewAs4PathParam(t, as[:n]))
 	}
